@@ -104,6 +104,9 @@ func runC13(c *Ctx) {
 		}
 	}
 
+	importRules(c, runC11, map[string]string{"C11.R4": "C13.R5"}, map[string]string{"C13.R5": "the memo states are deterministic functions of the lists: file retrieval reads exactly the stored line, the cache is keyed by the retrieved index (shared with C11.R4 / C19.R4)"})
+	importRules(c, runC19, map[string]string{"C19.R4": "C13.R5"}, nil)
+
 	// ---------- R2 ----------
 	reqT := c.P.Type("rules", "Request")
 	var poolGet *ssa.Function
